@@ -6,36 +6,78 @@ This is the link between the theorems (about `viewOf` / `loadCore`) and what the
 import Scalibr.Model.OverlayImage
 namespace Scalibr.Overlay
 
+theorem upgrades_tomb (own : Tree) (p : Path) (m : Nat) : upgrades own ⟨p, .link, true, m, 0, 0, []⟩ = false := by
+  unfold upgrades
+  cases own.get p <;> simp
+
 theorem processEntry_chains {limit i : Nat} {st st' : LoadSt} {pe : PEntry} (h : processEntry limit i st pe = some st') :
-    st'.chains = if pe.act = .accept then processEntryC i st.chains pe.e else st.chains := by
+    st'.chains = match pe.node? with | some e => processEntryC i st.chains e | none => st.chains := by
   unfold processEntry at h
-  unfold processEntryC
   by_cases hown : ((st.chains.getD i emptyTree).get pe.e.p).isSome
-  · rw [if_pos hown] at h; rw [if_pos hown]
-    by_cases hu : (pe.act = .accept && upgrades (st.chains.getD i emptyTree) pe.e) = true
-    · rw [if_pos hu] at h
-      simp only [Bool.and_eq_true, decide_eq_true_eq] at hu
-      simp only [Option.map_eq_some_iff] at h
-      obtain ⟨d, _, rfl⟩ := h
-      rw [if_pos hu.1, if_pos hu.2]
-    · rw [if_neg hu] at h
+  · rw [if_pos hown] at h
+    cases hact : pe.act with
+    | accept =>
+      simp only [PEntry.node?, hact]
+      unfold processEntryC
+      rw [if_pos hown]
+      by_cases hu : upgrades (st.chains.getD i emptyTree) pe.e = true
+      · have hc : (decide (pe.act = Act.accept) && upgrades (st.chains.getD i emptyTree) pe.e) = true := by
+          rw [Bool.and_eq_true]; exact ⟨by simp [hact], hu⟩
+        rw [if_pos hc] at h
+        simp only [Option.map_eq_some_iff] at h
+        obtain ⟨d, _, rfl⟩ := h
+        rw [if_pos hu]
+      · have hc : ¬ (decide (pe.act = Act.accept) && upgrades (st.chains.getD i emptyTree) pe.e) = true := by
+          intro hh; rw [Bool.and_eq_true] at hh; exact hu hh.2
+        rw [if_neg hc] at h
+        simp only [Option.some.injEq] at h; subst h
+        rw [if_neg hu]
+    | big =>
+      have hc : ¬ (decide (pe.act = Act.accept) && upgrades (st.chains.getD i emptyTree) pe.e) = true := by
+        intro hh; rw [Bool.and_eq_true] at hh; have := hh.1; simp [hact] at this
+      rw [if_neg hc] at h
       simp only [Option.some.injEq] at h; subst h
-      by_cases ha : pe.act = .accept
-      · have : ¬ upgrades (st.chains.getD i emptyTree) pe.e = true := by
-          intro hh; apply hu; rw [hh]; simp [ha]
-        rw [if_pos ha, if_neg this]
-      · rw [if_neg ha]
-  · rw [if_neg hown] at h; rw [if_neg hown]
-    cases hact : pe.act <;> rw [hact] at h <;> simp only [] at h
+      simp only [PEntry.node?, hact]
+      unfold processEntryC
+      have hown' : ((st.chains.getD i emptyTree).get (⟨pe.e.p, Kind.link, true, pe.e.mode, 0, 0, []⟩ : Entry).p).isSome := hown
+      rw [if_pos hown', upgrades_tomb]; simp
+    | badlink =>
+      have hc : ¬ (decide (pe.act = Act.accept) && upgrades (st.chains.getD i emptyTree) pe.e) = true := by
+        intro hh; rw [Bool.and_eq_true] at hh; have := hh.1; simp [hact] at this
+      rw [if_neg hc] at h
+      simp only [Option.some.injEq] at h; subst h
+      simp only [PEntry.node?, hact]
+      unfold processEntryC
+      have hown' : ((st.chains.getD i emptyTree).get (⟨pe.e.p, Kind.link, true, pe.e.mode, 0, 0, []⟩ : Entry).p).isSome := hown
+      rw [if_pos hown', upgrades_tomb]; simp
+    | fatal =>
+      have hc : ¬ (decide (pe.act = Act.accept) && upgrades (st.chains.getD i emptyTree) pe.e) = true := by
+        intro hh; rw [Bool.and_eq_true] at hh; have := hh.1; simp [hact] at this
+      rw [if_neg hc] at h
+      simp only [Option.some.injEq] at h; subst h
+      simp only [PEntry.node?, hact]
+    | other =>
+      have hc : ¬ (decide (pe.act = Act.accept) && upgrades (st.chains.getD i emptyTree) pe.e) = true := by
+        intro hh; rw [Bool.and_eq_true] at hh; have := hh.1; simp [hact] at this
+      rw [if_neg hc] at h
+      simp only [Option.some.injEq] at h; subst h
+      simp only [PEntry.node?, hact]
+  · rw [if_neg hown] at h
+    cases hact : pe.act <;> rw [hact] at h <;> simp only [] at h <;> simp only [PEntry.node?, hact]
     · simp only [Option.map_eq_some_iff] at h
       obtain ⟨d, _, rfl⟩ := h
-      simp
+      unfold processEntryC; rw [if_neg hown]
     · simp only [Option.map_eq_some_iff] at h
       obtain ⟨d, _, rfl⟩ := h
-      simp
-    · simp only [Option.some.injEq] at h; subst h; simp
+      unfold processEntryC
+      have hown' : ¬ ((st.chains.getD i emptyTree).get (⟨pe.e.p, Kind.link, true, pe.e.mode, 0, 0, []⟩ : Entry).p).isSome := hown
+      rw [if_neg hown']
+    · simp only [Option.some.injEq] at h; subst h
+      unfold processEntryC
+      have hown' : ¬ ((st.chains.getD i emptyTree).get (⟨pe.e.p, Kind.link, true, pe.e.mode, 0, 0, []⟩ : Entry).p).isSome := hown
+      rw [if_neg hown']
     · cases h
-    · simp only [Option.some.injEq] at h; subst h; simp
+    · simp only [Option.some.injEq] at h; subst h; rfl
 
 theorem processEntry_disk {limit i : Nat} {st st' : LoadSt} {pe : PEntry} (h : processEntry limit i st pe = some st') :
     st'.disk = st.disk ∨ diskStep limit st.disk pe = some st'.disk := by
@@ -58,9 +100,9 @@ theorem processEntry_disk {limit i : Nat} {st st' : LoadSt} {pe : PEntry} (h : p
     · simp only [Option.some.injEq] at h; subst h; exact Or.inl rfl
 
 theorem effective_cons (pe : PEntry) (l : List PEntry) :
-    effective (pe :: l) = if pe.act = .accept then pe.e :: effective l else effective l := by
+    effective (pe :: l) = match pe.node? with | some e => e :: effective l | none => effective l := by
   unfold effective
-  by_cases h : pe.act = .accept <;> simp [List.filterMap_cons, h]
+  cases h : pe.node? <;> simp [List.filterMap_cons, h]
 
 theorem foldlM_processEntry_chains (limit i : Nat) : ∀ (l : List PEntry) (st st' : LoadSt),
     l.foldlM (processEntry limit i) st = some st' →
@@ -77,7 +119,7 @@ theorem foldlM_processEntry_chains (limit i : Nat) : ∀ (l : List PEntry) (st s
       rw [h1] at h
       simp only [Option.bind_eq_bind, Option.bind_some] at h
       rw [ih st1 st' h, processEntry_chains h1, effective_cons]
-      by_cases ha : pe.act = .accept <;> simp [ha]
+      cases pe.node? <;> simp
 
 theorem processLayer_chains {limit i : Nat} {chains c : List Tree} {l : List PEntry} {d : Disk}
     (h : processLayer limit i chains l = some (c, d)) : c = (effective l).foldl (processEntryC i) chains := by
